@@ -27,6 +27,7 @@ func init() {
 }
 
 type c16Case struct {
+	Part    string `json:"part,omitempty"`
 	Type    string `json:"type"`
 	Literal string `json:"literal"`
 	Op      string `json:"op"`
@@ -62,6 +63,9 @@ func (p *c16) Bounds(tier string) map[string]interface{} {
 }
 
 func (p *c16) Cases(tier string, emit func(interface{})) {
+	for _, op := range c16Ops {
+		emit(c16Case{Part: "place", Op: op})
+	}
 	for _, t := range c16Types {
 		for _, l := range t.literal {
 			for _, op := range c16Ops {
@@ -205,6 +209,9 @@ func c16Module(t c16Type, op, literal string) string {
 func (p *c16) Run(raw json.RawMessage) eng.Result {
 	var c c16Case
 	decode(raw, &c)
+	if c.Part == "place" {
+		return c16RunPlace(c.Op)
+	}
 	var res eng.Result
 	ss := &sigSet{res: &res}
 	ty := c16TypeBy(c.Type)
